@@ -77,8 +77,8 @@ Definition path_normal (has_scheme has_auth : bool) (p : text) : text :=
   let p := join_slash (map (pct_norm false) (split_on 47 p)) in
   match p with
   | [] => []
-  | 47 :: _ => remove_dot_segments p
-  | _ => if has_scheme || has_auth then rds_keep_kind p else rel_path_normal p
+  | _ => if head_is 47 p then remove_dot_segments p
+         else if has_scheme || has_auth then rds_keep_kind p else rel_path_normal p
   end.
 
 (* authority: userinfo "@" host ":" port; the host is case-normalised unless it is an IPv6 literal
@@ -104,6 +104,6 @@ Definition normal_text (s : text) : text := recompose (five_normal (five_of_text
 (* the three shapes in which uriparser 0.9.8 leaves the specification (relative-path references only) *)
 Definition rel_path_ref (t : five) : bool :=
   negb (is_some_t (f_scheme t)) && negb (is_some_t (f_auth t))
-  && match f_path t with [] => false | 47 :: _ => false | _ => true end.
+  && match f_path t with [] => false | _ => negb (head_is 47 (f_path t)) end.
 Definition rel_body (p : text) : list text :=
   rel_stack [] (split_on 47 (join_slash (map (pct_norm false) (split_on 47 p)))).
